@@ -18,14 +18,17 @@
   `vocab_ascii`           every ASCII keyword (connecter, copula, punctuation, set bracket, atom prefix) of the
                           regenerated table is read whole by the corresponding grammar rule.
   `layout_ascii`          the ASCII layout characters are the grammar's literals.
+  `ascii_reading_unique`  the semantics is deterministic (`grammar_deterministic`), so the reading above is the ONLY
+                          one: the grammar classifies the string as this kind and this tree and no other.
 
-  K3 (known finding, see `k3_rejected_by_reference`): names containing `_-_` (more generally
+  K3 (known finding, see `k3_rejected`): names containing `_-_` (more generally
   `punct_sym "-" punct_sym`, the grammar's first copula alternative) are excluded by `gNameOKB`; for them
   the property is FALSE of the unchanged crate and README — the grammar rejects `a_-_b` while the library prints
   and reads it.
 -/
 import Proofs.Peg.Vocab
 import Proofs.Peg.Enum
+import Proofs.Peg.Det
 import Props.C02b
 import Props.C03b
 import Props.C11b
@@ -91,11 +94,25 @@ example : gValOKB Gen.asciiL (.term (.atom "$".toList "x1".toList)) = true ∧
 example : gNameOKB "a_-_b".toList = false ∧ gNameOKB "a_-b".toList = true ∧ gNameOKB "go-to".toList = true := by
   decide +kernel
 
-/-- … and the sound reference interpreter finds no reading of the formatter's output `a_-_b` (nor of a judgement
-about it), although the lexical parser reads both back (replayed on the real crate by the check) -/
-theorem k3_rejected_by_reference :
-    referenceS Gen.readmeGrammar "a_-_b".toList = none ∧
-    referenceS Gen.readmeGrammar "<a_-_b --> c>.".toList = none ∧
-    Gen.asciiL.lparse "a_-_b".toList = .ok (.term (.atom [] "a_-_b".toList)) := by decide +kernel
+/-- … and the published grammar has NO reading of the formatter's output `a_-_b`, nor of a judgement about it
+(the interpreter answers "no value" within its fuel; by soundness and determinism of the semantics there is no
+derivation at all), although the lexical parser reads both back (replayed on the real crate by the check) -/
+theorem k3_rejected :
+    (∀ v, ¬ Reads Gen.readmeGrammar "a_-_b".toList v) ∧
+    (∀ v, ¬ Reads Gen.readmeGrammar "<a_-_b --> c>.".toList v) ∧
+    Gen.asciiL.lparse "a_-_b".toList = .ok (.term (.atom [] "a_-_b".toList)) :=
+  ⟨referenceS_none _ (by decide +kernel) (by decide +kernel),
+   referenceS_none _ (by decide +kernel) (by decide +kernel), by decide +kernel⟩
+
+/-! ### uniqueness: the grammar classifies the string as THIS kind and tree and no other -/
+
+/-- the semantics of the published grammar is deterministic -/
+theorem grammar_deterministic (G : Grammar) {a : Bool} {p : Peg.Peg} {s : Str} {r1 r2 : Option (Str × List PTree)}
+    (h1 : Ev G a p s r1) (h2 : Ev G a p s r2) : r1 = r2 := ev_det h1 h2
+
+/-- **C11, uniqueness**: any reading the grammar has of the formatter's output is the printed value -/
+theorem ascii_reading_unique (v w : LNarsese) (h : gValOKB Gen.asciiL v = true)
+    (hw : Reads Gen.readmeGrammar (Gen.asciiL.fmtNarsese v) w) : w = v :=
+  reads_unique hw (ascii_conforms v h)
 
 end Narsese.Props.C11
